@@ -19,7 +19,8 @@ Time is an unbounded `Int` of unix nanoseconds (Go `time.Time`); DuckDB's µs in
       for each pattern only its FIRST textual match is looked at; the first pattern (in list order) whose first
       match parses wins; BETWEEN `'<lit>' AND '<lit>'` on a name ending in "time" overrides both bounds;
       relative patterns (`>=?`/`<=?` NOW()|CURRENT_TIMESTAMP ± INTERVAL 'n unit') only fill a bound still missing,
-      subtraction before addition; start-only ⇒ end = now + 24 h; end-only ⇒ start = 2020-01-01.
+      subtraction before addition (a unit spelled with a final capital `S` matches but is then dropped by
+      `evaluateRelativeTime`); start-only ⇒ end = now + 24 h; end-only ⇒ start = 2020-01-01.
     There is no word boundary before `time`: `event_time`, `uptime`, `t.time` all match; `"time"` (quoted) does not.
 (D) data sets (files at hour or day partitions), the read plan (`OptimizeTablePath`: generated paths filtered to
     those with at least one file; empty ⇒ unpruned glob), query results with and without pruning, the transform
